@@ -15,5 +15,7 @@ fn main() -> Result<(), Box<dyn std::error::Error>> {
         println!("cargo:rustc-env=CARGO_PKG_VERSION={}", val);
     }
     println!("cargo:rerun-if-env-changed=DELTIO_RELEASE_VERSION");
+    // The verification hooks are guarded by this cfg; declare it so it is a known name.
+    println!("cargo::rustc-check-cfg=cfg(deltio_verif)");
     Ok(())
 }
